@@ -644,6 +644,10 @@ class Engine:
             o, x = (a, b) if isinstance(a, VOpt) else (b, a)
             return z3.And(z3.Not(o.isnone), self.equal(st, o.val, x))
         if isinstance(a, VList) and isinstance(b, VList):
+            if a.eshape in ("U", "int", "bool") and a.eshape == b.eshape:
+                i = z3.Const("i!eq", IntS)
+                return z3.And(a.n == b.n, z3.ForAll([i], z3.Implies(
+                    z3.And(0 <= i, i < a.n), a.arr[i] == b.arr[i])))
             if st.spec:
                 i = z3.Const("i!eq", IntS)
                 return z3.And(a.n == b.n, z3.ForAll([i], z3.Implies(
@@ -753,19 +757,34 @@ class Engine:
         # opaque non-empty string; it is a *fresh name* if a piece is
         from .models import FRESHNAME, PJOIN
         fresh_parts = []
+        parts_u = []
+        has_text = any(isinstance(p_, ast.Constant) and p_.value
+                       for p_ in node.values)
         for part in node.values:
             if isinstance(part, ast.FormattedValue):
                 try:
                     v = self.eval(st, part.value)
                     if isinstance(v, VU):
                         fresh_parts.append(FRESHNAME(v.t))
+                        parts_u.append(v.t)
                 except Unsupported:
                     pass
         t = st.fresh("fstr", U)
         st.assume(t != NONE_U)
         st.assume(TRUTHY(t))
+        if has_text:
+            # literal text + an interpolated string is longer than, hence
+            # different from, the interpolated string
+            for pu in parts_u:
+                st.assume(t != pu)
         if fresh_parts:
+            from .models import ISABS, HASDD
             st.assume(FRESHNAME(t) == z3.Or(fresh_parts))
+            # a generated file name is a single plain component (A-STD)
+            from .models import PNAME
+            st.assume(z3.Implies(FRESHNAME(t), z3.And(z3.Not(ISABS(t)),
+                                                      z3.Not(HASDD(t)),
+                                                      PNAME(t) == t)))
             if "DSTATE" in st.ghost:
                 # a name containing a fresh uuid does not exist anywhere (A-STD)
                 par = z3.Const("par!fn", U)
